@@ -3,7 +3,7 @@
    Model: Frame/FrameModel.v (cc_init, finalize, prolog/epilog instruction lists), Frame/FrameMachine.v (abstract machine). *)
 From Coq Require Import ZArith List Bool.
 From Verif Require Import Frame.FrameModel Frame.FrameMachine Frame.FrameArith Frame.FrameLayout Frame.FrameMachineLemmas
-  Frame.FrameX86Proofs Frame.FrameA64Proofs Frame.FrameExamples Frame.SlotModel Frame.SlotProofs Frame.SlotFull Frame.FrameRange Frame.FrameExec Frame.FrameExecProofs.
+  Frame.FrameX86Proofs Frame.FrameA64Proofs Frame.FrameExamples Frame.SlotModel Frame.SlotProofs Frame.SlotFull Frame.FrameRange Frame.FrameExec Frame.FrameExecProofs Frame.FrameContract.
 Import ListNotations.
 Local Open Scope Z_scope.
 
@@ -453,3 +453,209 @@ Theorem C07_stack_args_modes_occur :
   fi_has_fp ex_a64_ok = true /\ fin_sa ex_a64_sa_fixed <> 31.
 Proof. exact ex_stack_args_sat. Qed.
 Print Assumptions C07_stack_args_modes_occur.
+
+(* ================================================================== round 6 *)
+(* hypotheses DISCHARGED.  `x86_regs_exist f` (saved vector/mask/MM ids exist in the mode the frame is emitted for) was a hypothesis of
+   every x86 theorem; for every convention the library can produce (cc_init, also with the Compiler's alignment override) it follows
+   from one input contract on x86-64: xmm16..31 are saved only in frames that enable AVX / AVX-512 *)
+Theorem C07_x86_regs_exist_discharged : forall f,
+  lib_cc (fi_arch f) (fi_cc f) -> is_x86_family (fi_arch f) = true -> x86_vec_contract f -> x86_regs_exist f.
+Proof. exact x86_regs_exist_discharged. Qed.
+Print Assumptions C07_x86_regs_exist_discharged.
+
+(* a frame as the API builds it (library convention + sizes >= 0, power-of-two alignments, admissible SA register) is well formed *)
+Theorem C07_api_frame_wf : forall f, api_frame f -> wf_in f.
+Proof. exact api_frame_wf. Qed.
+Print Assumptions C07_api_frame_wf.
+
+(* the x86/x64 round trip for EVERY API frame: no hypothesis about the convention or the register ids is left *)
+Theorem C07_roundtrip_x86_api : forall f, api_frame f -> is_x86_family (fi_arch f) = true -> x86_vec_contract f ->
+  forall s0 ra,
+  let a := fi_arch f in let o := finalize f in let ws := reg_size a in let sp0 := st_reg s0 0 4 in
+  st_ret s0 = None -> holds (st_mem s0) sp0 ws ra ->
+  (sp0 + ws) mod cc_natural (fi_cc f) = 0 -> fin_pp f <= sp0 < 2 ^ (8 * ws) ->
+  exists s1, run a (x86_prolog f o) s0 = Some s1 /\
+    st_reg s1 0 4 = x86_sp_body f sp0 /\ st_ret s1 = None /\
+    (fin_sa f <> 4 -> st_reg s1 0 (fin_sa f) + fo_sa_from_sa o = sp0 + ws) /\
+    (fi_has_fp f = true -> st_reg s1 0 5 + fo_sa_from_sa o = sp0 + ws) /\
+    (fo_sa_from_sp o <> -1 -> st_reg s1 0 4 + fo_sa_from_sp o = sp0 + ws) /\
+    forall s2, body_ok f s0 s1 s2 ->
+      exists s3, run a (x86_epilog f o) s2 = Some s3 /\
+        st_ret s3 = Some ra /\ st_reg s3 0 4 = sp0 + ws + fo_callee_cleanup o /\
+        (forall g r, Z.testbit (qget (cc_preserved (fi_cc f)) g) r = true ->
+                     trunc (qget (cc_srsize (fi_cc f)) g) (st_reg s3 g r) = trunc (qget (cc_srsize (fi_cc f)) g) (st_reg s0 g r)).
+Proof. exact x86_roundtrip_api. Qed.
+Print Assumptions C07_roundtrip_x86_api.
+
+(* AArch64, every API frame finalize ACCEPTS at HEAD: either the adjustment is beyond two immediates and both emitters refuse, or
+   the full round trip holds - vector save width, dynamic alignment, SA register are no hypotheses any more *)
+Theorem C07_roundtrip_a64_api : forall f, api_frame f -> fi_arch f = A64 -> finalize_error f = 0 -> fi_sa_fix f = true ->
+  (16777215 < fo_stack_adj (finalize f) /\ snd (prolog f (finalize f)) = false /\ epilog f (finalize f) = ([], false)) \/
+  (fo_stack_adj (finalize f) <= 16777215 /\
+   forall s0,
+   let o := finalize f in let sp0 := st_reg s0 0 31 in
+   st_ret s0 = None -> sp0 mod 16 = 0 -> 0 <= st_reg s0 0 30 < 2 ^ 64 ->
+   exists s1, run A64 (fst (prolog f o)) s0 = Some s1 /\ snd (prolog f o) = true /\
+     st_reg s1 0 31 = a64_sp_body f sp0 /\ st_ret s1 = None /\
+     a64_sp_body f sp0 mod fo_final_align o = 0 /\ a64_sp_body f sp0 + fo_sa_from_sp o = sp0 /\
+     (fi_sa_fix f = true -> fi_has_fp f = true -> st_reg s1 0 29 + fo_sa_from_sa o = sp0) /\
+     (fin_sa f <> 31 -> st_reg s1 0 (fin_sa f) + fo_sa_from_sa o = sp0) /\
+     forall s2, a64_body_ok f s0 s1 s2 ->
+       exists s3, run A64 (fst (epilog f o)) s2 = Some s3 /\ snd (epilog f o) = true /\
+         st_ret s3 = Some (st_reg s0 0 30) /\ st_reg s3 0 31 = sp0 /\
+         (forall g r, Z.testbit (qget (cc_preserved (fi_cc f)) g) r = true ->
+                      trunc (qget (cc_srsize (fi_cc f)) g) (st_reg s3 g r) = trunc (qget (cc_srsize (fi_cc f)) g) (st_reg s0 g r))).
+Proof. exact a64_roundtrip_api. Qed.
+Print Assumptions C07_roundtrip_a64_api.
+
+(* non-vacuity and NECESSITY of the remaining contract: API frames inside it exist (Win64; LightCall2 saving xmm20 with AVX-512);
+   the same LightCall2 frame without AVX/AVX-512 is an API frame outside the contract for which x86_regs_exist is FALSE *)
+Theorem C07_api_contract_examples :
+  (api_frame ex_win64 /\ x86_vec_contract ex_win64 /\ is_x86_family (fi_arch ex_win64) = true) /\
+  (api_frame ex_light_avx512 /\ x86_vec_contract ex_light_avx512 /\ In 20 (L1 ex_light_avx512)) /\
+  (api_frame ex_light_legacy /\ ~ x86_vec_contract ex_light_legacy /\ ~ x86_regs_exist ex_light_legacy).
+Proof. exact (conj ex_win64_api ex_contract_needed). Qed.
+Print Assumptions C07_api_contract_examples.
+
+Theorem C07_api_a64_examples :
+  api_frame ex_a64_sa_fixed /\ finalize_error ex_a64_sa_fixed = 0 /\ fi_sa_fix ex_a64_sa_fixed = true /\
+  fo_stack_adj (finalize ex_a64_sa_fixed) <= 16777215 /\
+  api_frame ex_a64_huge /\ finalize_error ex_a64_huge = 0 /\ 16777215 < fo_stack_adj (finalize ex_a64_huge).
+Proof. exact ex_a64_api. Qed.
+Print Assumptions C07_api_a64_examples.
+
+(* round 6 - COMPLETENESS of the proven machine's verdicts (converse of C07_exec_frame_sound / C07_exec_args_frame_sound): whenever the
+   scenario's round trip holds for the given instruction lists the verdict is 0.  Verdict 0 is therefore EQUIVALENT to the round trip
+   of the scenario, for ANY lists: the judge that runs on the implementation's real prolog/epilog has no false alarm and misses nothing *)
+Theorem C07_exec_frame_complete : forall a pro epi sp0 ra dirty preserved srsize has_fp csize local_off lsize cleanup s1 s3,
+  let s0 := init_state a sp0 ra in
+  run a pro s0 = Some s1 ->
+  run a epi (poison_body a s1 dirty has_fp csize local_off lsize) = Some s3 ->
+  st_ret s3 = Some ra -> st_reg s3 0 (sp_id a) = sp0 + ret_addr_size a + cleanup ->
+  (forall g r, 0 <= g <= 3 -> In r (bits_of 32 (qget preserved g)) -> ~ (g = 0 /\ r = sp_id a) ->
+     trunc (if g =? 0 then reg_size a else qget srsize g) (st_reg s3 g r) = trunc (if g =? 0 then reg_size a else qget srsize g) (st_reg s0 g r)) ->
+  exec_frame a pro epi sp0 ra dirty preserved srsize has_fp csize local_off lsize cleanup = (0, st_reg s1 0 (sp_id a)).
+Proof. exact exec_frame_complete. Qed.
+Print Assumptions C07_exec_frame_complete.
+
+Theorem C07_exec_args_frame_complete : forall a pro asg epi sp0 ra args dirty preserved srsize has_fp csize local_off lsize cleanup s1 s1' s3,
+  let s0 := init_state_args a sp0 ra args in
+  run a pro s0 = Some s1 -> run a asg s1 = Some s1' -> st_reg s1' 0 (sp_id a) = st_reg s1 0 (sp_id a) ->
+  (forall k spec, nth_error args k = Some spec -> arg_at_destination a s1' (Z.of_nat k) spec) ->
+  run a epi (poison_body a s1' dirty has_fp csize local_off lsize) = Some s3 ->
+  st_ret s3 = Some ra -> st_reg s3 0 (sp_id a) = sp0 + ret_addr_size a + cleanup ->
+  (forall g r, 0 <= g <= 3 -> In r (bits_of 32 (qget preserved g)) -> ~ (g = 0 /\ r = sp_id a) ->
+     trunc (if g =? 0 then reg_size a else qget srsize g) (st_reg s3 g r) = trunc (if g =? 0 then reg_size a else qget srsize g) (st_reg s0 g r)) ->
+  fst (exec_args_frame a pro asg epi sp0 ra args dirty preserved srsize has_fp csize local_off lsize cleanup) = 0.
+Proof. exact exec_args_frame_complete. Qed.
+Print Assumptions C07_exec_args_frame_complete.
+
+(* non-vacuity of the argument-copy scenario: a register and a stack argument copied on the Win64 example frame: verdict 0; with the
+   register copy dropped: verdict 6 (argument not at its destination) *)
+Theorem C07_exec_args_verdicts : ex_exec_args (fst ex_args_lists) = 0 /\ ex_exec_args (snd ex_args_lists) = 6.
+Proof. exact ex_exec_args_verdicts. Qed.
+Print Assumptions C07_exec_args_verdicts.
+
+(* round 6, translator tie extended: Environment::stack_alignment() is interpreted from the source for the nine (architecture, platform)
+   pairs and the Compiler's override (compiler.cpp) is pattern-checked: the model's env_stack_alignment is the source's ... *)
+Theorem C07_source_env_alignment :
+  Forall (fun r => let '(a, p, v) := r in env_stack_alignment a p = v) C07SourceData.src_env_stack_alignment.
+Proof. exact C07SourceData.src_env_stack_alignment_agrees. Qed.
+Print Assumptions C07_source_env_alignment.
+
+(* ... and the convention the Compiler hands to finalize has natural alignment max(convention, environment) with the source's value *)
+Theorem C07_source_compiler_cc : forall a p cc, In a [X86; X64; A64] -> In p [0; 1; 2] ->
+  exists v, In (a, p, v) C07SourceData.src_env_stack_alignment /\ cc_natural (compiler_cc a p cc) = Z.max (cc_natural cc) v.
+Proof. exact C07SourceData.src_compiler_cc_natural. Qed.
+Print Assumptions C07_source_compiler_cc.
+
+(* round 6 - "the Assembler accepts the emitted prolog/epilog" PROVED for AArch64: every instruction of the prolog and the epilog of every
+   accepted API frame (adjustment within two immediates) is encodable: add/sub immediates are imm12 or imm12 << 12, ldp/stp offsets
+   are multiples of 8 in [-512, 504] (also the pre-/post-index amounts: the save area of a library convention is at most 224 bytes),
+   ldr/str pre-/post-index amounts are in [-256, 255].  The predicate is evaluated on the implementation's lists in every run and
+   compared with the real Assembler's verdict *)
+Theorem C07_a64_encodable_api : forall f, api_frame f -> fi_arch f = A64 -> finalize_error f = 0 -> fi_sa_fix f = true ->
+  fo_stack_adj (finalize f) <= 16777215 ->
+  (forall i, In i (fst (prolog f (finalize f))) -> a64_encodable i = true) /\
+  (forall i, In i (fst (epilog f (finalize f))) -> a64_encodable i = true).
+Proof. exact a64_api_encodable. Qed.
+Print Assumptions C07_a64_encodable_api.
+
+(* the push/pop save area of an accepted AArch64 frame of a library convention is at most 224 bytes *)
+Theorem C07_a64_save_area_bound : forall f, lib_cc (fi_arch f) (fi_cc f) -> fi_arch f = A64 -> a64_realisable f = true -> fin_pp f <= 224.
+Proof. exact a64_api_save_area. Qed.
+Print Assumptions C07_a64_save_area_bound.
+
+Theorem C07_a64_encodable_examples :
+  forallb a64_encodable (fst (prolog ex_a64_sa_fixed (finalize ex_a64_sa_fixed))) = true /\
+  (length (fst (prolog ex_a64_sa_fixed (finalize ex_a64_sa_fixed))) >= 3)%nat /\
+  a64_encodable (Mstp, [a64_reg 0 19; a64_reg 0 20; OMem 31 (-528) 1]) = false /\
+  a64_encodable (Msub, [a64_reg 0 31; a64_reg 0 31; OImm 4097]) = false /\
+  a64_encodable (Mstr, [a64_reg 0 19; OMem 31 (-272) 1]) = false.
+Proof. exact ex_a64_encodable. Qed.
+Print Assumptions C07_a64_encodable_examples.
+
+(* round 6 - argument copies (what emit_args_assignment emits between prolog and body) under a VERIFIED static check.  The copy
+   sequence is not modelled; a checker on the emitted sequence is: register moves / loads / exchanges may only write registers of the
+   frame's dirty set or registers the convention does not preserve (never sp, never a preserved frame pointer), stores must stay inside the call area or the local area.  If the
+   checker accepts, then for EVERY entry state and every confined body the round trip holds with the copies executed after the prolog.
+   The extracted checker runs on the implementation's copy sequence of every x86/x64 argument-copy frame of the check *)
+From Verif Require Import Frame.FrameCopies.
+Theorem C07_roundtrip_with_copies : forall f, wf_in f -> is_x86_family (fi_arch f) = true -> x86_regs_exist f ->
+  forall cs, copies_ok f cs = true ->
+  forall s0 ra,
+  let a := fi_arch f in let o := finalize f in let ws := reg_size a in let sp0 := st_reg s0 0 4 in
+  st_ret s0 = None -> holds (st_mem s0) sp0 ws ra ->
+  (sp0 + ws) mod cc_natural (fi_cc f) = 0 -> fin_pp f <= sp0 < 2 ^ (8 * ws) ->
+  exists s1, run a (x86_prolog f o) s0 = Some s1 /\
+    forall s1', run a (map acopy_instr cs) s1 = Some s1' ->
+      st_reg s1' 0 4 = x86_sp_body f sp0 /\
+      forall s2, body_ok f s0 s1' s2 ->
+        exists s3, run a (x86_epilog f o) s2 = Some s3 /\
+          st_ret s3 = Some ra /\ st_reg s3 0 4 = sp0 + ws + fo_callee_cleanup o /\
+          (forall g r, Z.testbit (qget (cc_preserved (fi_cc f)) g) r = true ->
+                       trunc (qget (cc_srsize (fi_cc f)) g) (st_reg s3 g r) = trunc (qget (cc_srsize (fi_cc f)) g) (st_reg s0 g r)).
+Proof. exact x86_roundtrip_with_copies. Qed.
+Print Assumptions C07_roundtrip_with_copies.
+
+(* the checker on a frame is the checker on the five data the check takes from the implementation's frame *)
+Theorem C07_copies_ok_data : forall f cs,
+  copies_ok f cs = copies_ok_data (q0 (fo_dirty (finalize f))) (q0 (cc_preserved (fi_cc f))) (fi_has_fp f) (fi_call_size f) (fo_local_off (finalize f)) (fi_local_size f) cs.
+Proof. exact copies_ok_is_data. Qed.
+Print Assumptions C07_copies_ok_data.
+
+Theorem C07_copies_examples :
+  copies_ok ex_win64 [CMovRR 8 3 8 1; CLoad 8 6 (fin_sa ex_win64) (fo_sa_from_sa (finalize ex_win64) + 40);
+                      CStore (fo_local_off (finalize ex_win64)) 8 6] = true /\
+  copies_ok ex_win64 [CMovRR 8 7 8 1] = false /\ copies_ok ex_win64 [CMovRR 8 0 8 1] = true /\
+  copies_ok ex_win64 [CStore (fo_local_off (finalize ex_win64) + fi_local_size ex_win64) 8 6] = false /\
+  copies_ok ex_win64 [CXchg 8 4 8 3] = false.
+Proof. exact ex_copies_ok. Qed.
+Print Assumptions C07_copies_examples.
+
+(* the same on AArch64 (mov / ldr / str sp-relative), for every frame finalize accepts *)
+Theorem C07_roundtrip_with_copies_a64 : forall f, wf_in f -> fi_arch f = A64 -> a64_realisable f = true ->
+  (fi_sa_reg f = id_bad \/ fi_sa_fix f = true) -> fo_stack_adj (finalize f) <= 16777215 ->
+  forall cs, copies64_ok f cs = true ->
+  forall s0,
+  let o := finalize f in let sp0 := st_reg s0 0 31 in
+  st_ret s0 = None -> sp0 mod 16 = 0 -> 0 <= st_reg s0 0 30 < 2 ^ 64 ->
+  exists s1, run A64 (fst (prolog f o)) s0 = Some s1 /\
+    forall s1', run A64 (map acopy64_instr cs) s1 = Some s1' ->
+      st_reg s1' 0 31 = a64_sp_body f sp0 /\
+      forall s2, a64_body_ok f s0 s1' s2 ->
+        exists s3, run A64 (fst (epilog f o)) s2 = Some s3 /\ snd (epilog f o) = true /\
+          st_ret s3 = Some (st_reg s0 0 30) /\ st_reg s3 0 31 = sp0 /\
+          (forall g r, Z.testbit (qget (cc_preserved (fi_cc f)) g) r = true ->
+                       trunc (qget (cc_srsize (fi_cc f)) g) (st_reg s3 g r) = trunc (qget (cc_srsize (fi_cc f)) g) (st_reg s0 g r)).
+Proof. exact a64_roundtrip_with_copies. Qed.
+Print Assumptions C07_roundtrip_with_copies_a64.
+
+(* non-vacuity on the AAPCS64 example frame (x19..x21 dirty, FP preserved): copies into x19/x20 and a store into the local area are
+   accepted, into the volatile x9 too; into x22 (callee-saved, not dirty), into x29 (frame pointer) and a store below sp are rejected *)
+Theorem C07_copies_examples_a64 :
+  copies64_ok ex_a64_ok [C64Mov 8 19 8 0; C64Ldr 8 20 31 (fo_sa_from_sp (finalize ex_a64_ok)); C64Str (fo_local_off (finalize ex_a64_ok)) 8 20] = true /\
+  copies64_ok ex_a64_ok [C64Mov 8 22 8 0] = false /\ copies64_ok ex_a64_ok [C64Mov 8 9 8 0] = true /\
+  copies64_ok ex_a64_ok [C64Mov 8 29 8 0] = false /\ copies64_ok ex_a64_ok [C64Str (-8) 8 0] = false.
+Proof. exact ex_copies64_ok. Qed.
+Print Assumptions C07_copies_examples_a64.
